@@ -369,8 +369,11 @@ def operands_valid(objs, clsname):
 def run_base(ctx, p):
     import spatialmath.base as base
     fn = getattr(base, p['name'])
+    kw = dict(p['kwargs'])
+    if '_seed' in kw:
+        np.random.seed(kw.pop('_seed'))
     try:
-        fn(*p['args'], **p['kwargs'])
+        fn(*p['args'], **kw)
     except Exception:
         pass     # judged by the hook (in-domain raise = violation)
 
@@ -582,6 +585,7 @@ def base_case(rng):
         args = [gen.so3(rng), gen.transl(rng).tolist()] if rng.random() < 0.5 else [gen.so2(rng), gen.transl(rng, 2).tolist()]
     else:
         args = []
+        kw = {'_seed': int(rng.integers(2 ** 31))}
     return dict(name=name, args=args, kwargs=kw)
 
 
